@@ -559,6 +559,8 @@ where
             })
             .await
             .map_err(Error::from)?;
+        #[cfg(sos_verif)]
+        sos_core::verif::crash_point("db.evlog.clear.after-commit");
         self.tree = CommitTree::new();
         Ok(())
     }
